@@ -420,7 +420,6 @@ func TestC19a(t *testing.T) {
 		Gen:  genA, Check: checkA, Classify: classifyA,
 		Assumptions: []string{
 			"go-cty (conversion, number parsing, set ordering) is the trusted base of the expected values",
-			"strings containing the literal text $${ or %%{ are not generated (their template escaping is not pinned down by the in-tree documentation)",
 			"a block with a missing label has no JSON spelling (label levels are resolved by the schema), so that single fault is not compared on JSON forms",
 			"nil and empty slices/maps are the same Go result; two empty cty collections of one kind are the same result whatever their element type",
 		},
